@@ -321,6 +321,14 @@ def cases(tier, seed):
         else:
             add("payload", font=r["path"], tags=None, short=short)
 
+    # the same damage inside a collection whose members share the damaged table (shareTables=True)
+    ttc_fonts = ["ttx/data/TestTTF.ttf", "ttx/data/TestOTF.otf", "ttLib/data/TestTTF-Regular.ttx"]
+    if T:
+        ttc_fonts += [r["path"] for r in chosen if r["size"] <= 8000][:30]
+    for rel in dict.fromkeys(ttc_fonts):
+        if _exists(rel):
+            add("payload-ttc", font=rel, short=short)
+
     # ---- clause 3 --------------------------------------------------------------------------
     npay = len(GT.payloads("", 0))
     for fmt, per_class in (("ttx", 1), ("designspace", 2), ("glif", 3), ("plist", 4)):
@@ -379,6 +387,9 @@ def cases(tier, seed):
                 add("failsave-lines", font=rel, op=op, part=part, parts=parts, stride=1)
         for op in ("TTFont.save", "TTFont.save/woff2", "TTCollection.save", "subset.save_font"):
             add("failsave-compile", font=rel, op=op)
+    # the command-line entry points: a failing job must leave an existing destination alone
+    for part in range(2 if T else 1):
+        add("failsave-cli", part=part, deep=T)
     return cs
 
 
@@ -852,6 +863,149 @@ def run_payload(case, ctx, rnd):
     ctx.note("clause2:saves aborted", n_abort)
     ctx.sample = {"kind": "payload", "font": rel, "tables": tags if len(tags) < 12 else len(tags), "fallback_taken": n_fb,
                   "still_decoded": n_dec, "saves_completed": n_saved, "saves_aborted_by_decoded_tables": n_abort}
+
+
+def run_payload_ttc(case, ctx, rnd):
+    """Clause 2 inside a collection: both members carry the same damaged table (stored once, shared);
+    opened with TTCollection(shareTables=True, ignoreDecompileErrors=True)."""
+    from fontTools.ttLib import TTCollection
+    from fontTools.ttLib.tables.DefaultTable import DefaultTable
+
+    rel = case["font"]
+    base = corpus.font_bytes(rel)
+    ver, tabs = S.sfnt_tables(base)
+    seen = set()
+    n_fb = n_saved = 0
+
+    def bad(mech, what, wit):
+        k = tuple(sorted(mech.items()))
+        if k not in seen:
+            seen.add(k)
+            ctx.violation(mech, what, wit)
+
+    def variant(tag, dname, dbytes):
+        nonlocal n_fb, n_saved
+        t2 = dict(tabs)
+        t2[tag] = dbytes
+        blob = S.build_ttc(ver, [t2, dict(t2)])
+        wit = {"font": rel, "table": tag, "damage": dname, "damaged_len": len(dbytes), "collection": "2 x the same font, tables shared"}
+        for share in (True, False):
+            _cur["fallback"] = {}
+            try:
+                coll = TTCollection(io.BytesIO(blob), shareTables=share, ignoreDecompileErrors=True, recalcBBoxes=False, recalcTimestamp=False)
+            except Exception as e:
+                ctx.judged()
+                bad({"kind": "raw-table", "what": "open-raised", "type": tname(e), "container": "ttc"},
+                    "valid collection with damaged %r payload: TTCollection() raised %s" % (tag, tname(e)), wit)
+                return
+            fell = False
+            for mi, font in enumerate(coll.fonts):
+                for t in list(font.keys()):
+                    if t == "GlyphOrder":
+                        continue
+                    try:
+                        tb = font[t]
+                        ctx.judged()
+                    except (CaseTimeout, MemoryError, RecursionError):
+                        raise
+                    except Exception as e:
+                        ctx.judged()
+                        bad({"kind": "raw-table", "what": "access-raised", "type": tname(e), "table": t, "damaged": tag, "container": "ttc",
+                             "shareTables": share},
+                            "ignoreDecompileErrors=True but member %d font[%r] raised %s (damaged: %s, %s)" % (mi, t, tname(e), tag, dname), wit)
+                        return
+                # the damaged table decodes or falls back in the same way in every member
+                tb = font[tag]
+                if hasattr(tb, "ERROR") or type(tb) is DefaultTable:
+                    fell = True
+                    ctx.judged()
+                    if type(tb) is not DefaultTable or getattr(tb, "data", None) != dbytes:
+                        bad({"kind": "raw-table", "what": "fallback-lost-data", "table": tag, "container": "ttc", "shareTables": share},
+                            "member %d: undecodable %r is a %s whose data differs from the file's bytes" % (mi, tag, type(tb).__name__), wit)
+                        return
+                # every table object must be usable: compile what was decoded, return what was kept raw
+                for t in list(font.keys()):
+                    if t == "GlyphOrder" or not hasattr(font[t], "ERROR"):
+                        continue
+                    try:
+                        got = font.getTableData(t)
+                    except Exception as e:
+                        got = e
+                    ctx.judged()
+                    if got != (dbytes if t == tag else S.sfnt_tables(base)[1].get(t)):
+                        bad({"kind": "raw-table", "what": "getTableData-differs", "table": t, "container": "ttc", "shareTables": share},
+                            "member %d: getTableData(%r) of the raw fallback table does not return the file's bytes" % (mi, t), dict(wit, got=repr(got)[:80]))
+            if not fell:
+                # decoded (perhaps lazily) in one member must mean decoded in all: compare the kinds
+                kinds = {type(f[tag]).__name__ for f in coll.fonts}
+                ctx.judged()
+                if len(kinds) > 1:
+                    bad({"kind": "raw-table", "what": "members-disagree", "table": tag, "container": "ttc", "shareTables": share},
+                        "the shared damaged table %r is %s in different members" % (tag, sorted(kinds)), wit)
+            else:
+                n_fb += 1
+                ctx.nontrivial("pt:%s:%s:%s:%s" % (rel[-14:], tag, dname, share))
+            # the dump the ttx tool would make must not crash on a table kept raw
+            if fell:
+                try:
+                    coll.saveXML(io.StringIO())
+                    ctx.judged()
+                except (CaseTimeout, MemoryError, RecursionError):
+                    raise
+                except Exception as e:
+                    ctx.judged()
+                    culprit = lib_frame(e)
+                    ctx.note("clause2:collection dump raised %s (judged only when a raw table is the cause)" % tname(e))
+                    for f in coll.fonts:
+                        tb = f.tables.get(tag)
+                        if tb is not None and type(tb) is not DefaultTable and not hasattr(tb, "ERROR") and fell:
+                            bad({"kind": "raw-table", "what": "half-initialised-table", "table": tag, "container": "ttc", "shareTables": share},
+                                "a member holds a %s for the undecodable %r while another member fell back to raw bytes; the dump raised %s"
+                                % (type(tb).__name__, tag, tname(e)), wit)
+                            break
+            kinds = [type(f[tag]).__name__ for f in coll.fonts]
+            if fell and len(set(kinds)) > 1:
+                ctx.judged()
+                bad({"kind": "raw-table", "what": "members-disagree", "table": tag, "container": "ttc", "shareTables": share},
+                    "the shared undecodable table %r is %s in the members" % (tag, kinds), wit)
+            out = io.BytesIO()
+            try:
+                coll.save(out)
+                n_saved += 1
+            except (CaseTimeout, MemoryError, RecursionError):
+                raise
+            except Exception:
+                ctx.note("clause2:collection save aborted (not judged)")
+                continue
+            if fell:
+                try:
+                    ver2, offs = S.ttc_offsets(out.getvalue())
+                    for mi, o in enumerate(offs):
+                        got = S.sfnt_tables(out.getvalue(), o)[1].get(tag)
+                        ctx.judged()
+                        if got != dbytes:
+                            bad({"kind": "raw-table", "what": "resaved-differs", "table": tag, "container": "ttc", "shareTables": share},
+                                "member %d: raw fallback table %r is not byte-identical in the saved collection" % (mi, tag), wit)
+                except S.Bad as e:
+                    bad({"kind": "raw-table", "what": "output-unparsable", "container": "ttc"}, "saved collection unparsable: %s" % e, wit)
+
+    for tag in sorted(tabs):
+        if tag == "head":
+            continue      # members of one collection share everything here; head is covered by the sfnt cases
+        for dname, dbytes in GF.payload_damages(tabs[tag], rnd, short=case.get("short") or (4, 8)):
+            try:
+                with _deadline(40):
+                    variant(tag, dname, dbytes)
+            except CaseTimeout:
+                _cur["fallback"] = None
+                ctx.skip("damaged payload variant exceeded the watchdog")
+            except MemoryError:
+                _cur["fallback"] = None
+                ctx.skip("damaged payload variant exceeded the memory limit")
+    _cur["fallback"] = None
+    ctx.note("clause2:collection variants where the shared table fell back to raw bytes", n_fb)
+    ctx.note("clause2:collection saves completed", n_saved)
+    ctx.sample = {"kind": "payload-ttc", "font": rel, "fallback_taken": n_fb, "saves_completed": n_saved}
 
 
 # ------------------------------------------------------------------ clause 3: the audit oracle
@@ -1710,5 +1864,126 @@ def run_failsave_compile(case, ctx, rnd):
                                   {"font": rel, "table": tag, "stray": stray})
         ctx.note("clause4:table-compile failures injected", n)
         ctx.sample = {"kind": "failsave-compile", "font": rel, "op": op, "tables": len(tags), "failed_saves": n}
+    finally:
+        sb.close()
+
+
+def run_failsave_cli(case, ctx, rnd):
+    """The command-line tools: a job that fails (a table compile raising; an input whose field is out of
+    range; an unparsable input) while the destination already exists must leave that file alone."""
+    from fontTools import ttx, subset, merge, varLib
+    from fontTools.varLib import instancer
+    from fontTools.ttLib import getTableClass
+
+    sb = Sandbox("q")
+    seen = set()
+    try:
+        ttf = os.path.join(sb.indir, "good.ttf")
+        with open(ttf, "wb") as f:
+            f.write(corpus.font_bytes("ttx/data/TestTTF.ttf"))
+        good_ttx = corpus.abspath("ttx/data/TestTTF.ttx")
+        with open(good_ttx, encoding="utf-8") as f:
+            text = f.read()
+        import re as _re
+
+        bad_value = _re.sub(r'(<usWeightClass value=")\d+(")', r"\g<1>100000\g<2>", text, count=1)
+        broken_xml = text[: len(text) // 2]
+        varttf = os.path.join(sb.indir, "var.ttf")
+        try:
+            with open(varttf, "wb") as f:
+                f.write(corpus.font_bytes("fontBuilder/data/test_var.ttf.ttx"))
+        except Exception:
+            varttf = None
+        ds = corpus.abspath("varLib/data/BuildAvarSingleAxis.designspace")
+        finder = os.path.join(env.TESTS, "varLib", "data", "master_ttx_interpolatable_ttf", "{stem}.ttx")
+
+        def ttx_in(content, name="job.ttx"):
+            p = os.path.join(sb.out, name)
+            with open(p, "w", encoding="utf-8") as f:
+                f.write(content)
+            return p
+
+        def jobs(dest):
+            """(label, callable, failure kind) - every one writes to `dest` (which exists beforehand)."""
+            out = []
+            for flav in (None, "woff", "woff2"):
+                fl = ["--flavor", flav] if flav else []
+                out.append(("ttx -f -o%s" % (" --flavor " + flav if flav else ""), lambda fl=fl: ttx.main(["-q", "-f", "-o", dest] + fl + [ttx_in(text)]), "table-compile"))
+            out.append(("ttx -f -o", lambda: ttx.main(["-q", "-f", "-o", dest, ttx_in(bad_value)]), "field-out-of-range"))
+            out.append(("ttx -f -o", lambda: ttx.main(["-q", "-f", "-o", dest, ttx_in(broken_xml)]), "unparsable-input"))
+            # no -o: the output name is derived from the input name (dest = <input stem>.ttf, overwritten with -f)
+            stem = os.path.splitext(dest)[0]
+            out.append(("ttx -f", lambda: ttx.main(["-q", "-f", ttx_in(bad_value, os.path.basename(stem) + ".ttx")]), "field-out-of-range"))
+            out.append(("ttx -f", lambda: ttx.main(["-q", "-f", ttx_in(text, os.path.basename(stem) + ".ttx")]), "table-compile"))
+            out.append(("ttx -f -d", lambda: ttx.main(["-q", "-f", "-d", os.path.dirname(dest), ttx_in(bad_value, os.path.join("..", "in", os.path.basename(stem) + ".ttx"))]),
+                        "field-out-of-range"))
+            out.append(("subset --output-file", lambda: subset.main([ttf, "--output-file=" + dest, "--glyphs=*"]), "table-compile"))
+            out.append(("merge --output-file", lambda: merge.main([ttf, ttf, "--output-file=" + dest]), "table-compile"))
+            if varttf:
+                out.append(("instancer -o", lambda: instancer.main([varttf, "LEFT=drop", "-o", dest, "-q"]), "table-compile"))
+            out.append(("varLib -o", lambda: varLib.main([ds, "-o", dest, "--master-finder", finder, "-q"]), "table-compile"))
+            return out
+
+        n = 0
+        dest0 = os.path.join(sb.out, "dest.ttf")
+        labels = [(lab, kind) for lab, fn, kind in jobs(dest0)]
+        for idx, (lab, kind) in enumerate(labels):
+            if idx % (2 if case.get("deep") else 1) != case.get("part", 0) % (2 if case.get("deep") else 1):
+                continue
+            for victim in (("name", "head", "maxp", "OS/2") if kind == "table-compile" else (None,)):
+                dest = _prepare_dest(sb)
+                dest = os.path.join(sb.out, "dest.ttf")
+                os.rename(os.path.join(sb.out, "dest.bin"), dest)
+                os.makedirs(sb.indir, exist_ok=True)
+                fn = jobs(dest)[idx][1]
+                cls = getTableClass(victim) if victim else None
+                orig = cls.compile if cls else None
+
+                def boom(self, font, _t=victim):
+                    raise _Boom("injected compile failure in %r" % _t)
+
+                if cls:
+                    cls.compile = boom
+                failed = False
+                try:
+                    with _run_lib(sb, secs=60):
+                        try:
+                            fn()
+                        except SystemExit as e:
+                            failed = e.code not in (0, None)
+                        except (CaseTimeout, MemoryError):
+                            raise
+                        except Exception:
+                            failed = True
+                finally:
+                    if cls:
+                        cls.compile = orig
+                if not failed:
+                    ctx.note("clause4:cli job did not fail (%s, %s)" % (lab, kind))
+                    continue
+                n += 1
+                ctx.judged()
+                ctx.nontrivial("q:%s:%s:%s" % (lab, kind, victim))
+                try:
+                    with open(dest, "rb") as f:
+                        same = f.read() == PRECIOUS
+                except OSError:
+                    same = False
+                stray = sorted(x for x in os.listdir(sb.out) if x != "dest.ttf" and not x.endswith(".ttx"))
+                if not same or stray:
+                    mech = {"kind": "failed-save-clobbers", "op": lab, "inject": kind, "what": "destination-modified" if not same else "stray-file"}
+                    key = tuple(sorted(mech.items()))
+                    if key not in seen:
+                        seen.add(key)
+                        try:
+                            size = os.path.getsize(dest)
+                        except OSError:
+                            size = None
+                        ctx.violation(mech, "%s: the job failed (%s%s) and the existing destination was %s"
+                                      % (lab, kind, " in %r" % victim if victim else "",
+                                         "modified (now %s bytes, was %d)" % (size, len(PRECIOUS)) if not same else "left with stray files %s" % stray),
+                                      {"cli": lab, "failure": kind, "table": victim, "stray": stray})
+        ctx.note("clause4:failing command-line jobs", n)
+        ctx.sample = {"kind": "failsave-cli", "failing_jobs": n, "entry_points": sorted({l for l, k in labels})}
     finally:
         sb.close()
